@@ -101,6 +101,10 @@ class Impl:
             parts = [FILTERS[t] for t in self.filter_tokens]
         elif self.filter_style == "enum":
             parts = [FILTER_ENUM[t] for t in self.filter_tokens]
+        elif self.filter_style == "lazy":
+            # a one-shot iterable (the parameter is an Iterable): the composite must not depend on re-reading it
+            tokens = list(self.filter_tokens)
+            return jsl.create_composite_operation_filter(FILTER_ENUM[t] for t in tokens)
         else:
             parts = [FILTER_ENUM[t].value for t in self.filter_tokens]
         if len(parts) == 1 and self.filter_style != "callable":
@@ -196,6 +200,9 @@ class Impl:
             f = jsl.create_composite_operation_filter([FILTERS[t] for t in fs])
         elif self.filter_style == "enum":
             f = jsl.create_composite_operation_filter([FILTER_ENUM[t] for t in fs])
+        elif self.filter_style == "lazy":
+            f = jsl.create_composite_operation_filter(map(FILTER_ENUM.get, list(fs)))
+            f(self.dispatcher, list(ops))          # a first call; the answer below comes from the second
         else:
             f = jsl.create_composite_operation_filter([FILTER_ENUM[t].value for t in fs])
         arg = list(ops)
